@@ -73,7 +73,7 @@ PROPS = {
         "assumptions": [STUBS, "every Rust panic / overflow / index / debug_assert check inside foca is a C06 obligation in every harness"],
         "harnesses": [
             H("c06_set_config_grow", cost=60), H("c06_set_config_shrink", cost=60), H("c06_fuzz_feed_2", cost=120),
-            H("c06_fuzz_broadcast_5", cost=120), H("d_ping", cost=80), H("t_probe_k2", cost=60), H("t_indirect_k2", cost=70),
+            H("c06_fuzz_broadcast_5", cost=120), H("d_ping", cost=80), H("t_probe_k2", cost=60), H("t_indirect_k2", cost=70), H("c06_timer_crafted_suspect", cost=25),
             H("c06_config_new_lan", cost=10, **CD), H("c06_config_new_wan", cost=10, **CD), H("bc_fill_prefix_1", cost=120, **BC),
             H("c06_set_config_same", tier=T), H("c06_set_config_gossip", tier=T, cost=600, timeout_t=3000), H("c06_fuzz_gossip_7", tier=T, cost=900, timeout_t=3600), H("c06_fuzz_gossip_9", tier=T, cost=900, timeout_t=3600), H("c06_fuzz_ping_7", tier=T, cost=900, timeout_t=3600),
             H("c06_fuzz_turnundead_3", tier=T, cost=300), H("a_apply1_k2", tier=T, cost=220), H("d_turn_undead_never", tier=T, cost=200), H("d_turn_undead_next", tier=T, cost=600, timeout_t=3000),
@@ -132,7 +132,7 @@ PROPS = {
     "C12": {
         "level": "model_checking", "bounds": BOUNDS_E1 + "; fan-out 1..=2", "outside": "fan-out 3; " + OUT_E1, "assumptions": [STUBS],
         "harnesses": [
-            H("t_probe_k2", cost=60), H("t_indirect_k2", cost=70), H("d_ack", cost=70), H("d_fwd_ack", cost=105), H("d_ping", cost=80), H("d_pingreq", cost=80),
+            H("t_probe_k2", cost=60), H("t_indirect_k2", cost=70), H("d_ack", cost=70), H("d_fwd_ack", cost=105), H("d_fwd_ack_2", cost=105, bounds="two helpers asked, fan-out 2"), H("d_ping", cost=80), H("d_pingreq", cost=80),
             H("d_indirect_ping", tier=T, cost=80), H("d_indirect_ack", tier=T, cost=80), H("t_probe_k3", tier=T, cost=120), H("t_indirect_k3", tier=T, cost=140),
         ],
     },
@@ -179,7 +179,7 @@ PROPS = {
         "outside": "items > 6 bytes, > 2 pending items, 64 KiB length truncation", "assumptions": [STUBS],
         "harnesses": [
             H("bc_invalidate", cost=200, timeout_q=900, **BC), H("bc_fill_prefix_2", cost=300, timeout_q=900, **BC), H("c16_add_broadcast", cost=40), H("c16_broadcast_one", cost=120),
-            H("d_gossip_custom", cost=65), H("c07_send_bcast_15", cost=25), H("c16_broadcast_drain", cost=60, entry="Foca::broadcast on the real backlog (no stubs)"), H("e4_message_gates_smt", engine="smt", group="gates", cost=80, entry="Message::{needs_piggyback, allow_custom_broadcasts, piggyback_only_active} (MIR -> SMT-LIB2, z3 + cvc5)", bounds="all 11 message kinds; 6 queries x 2 solvers"),
+            H("d_gossip_custom", cost=65), H("d_ack_custom2", cost=80, entry="Foca::handle_data(Ack + two custom items)"), H("c07_send_bcast_15", cost=25), H("c16_broadcast_drain", cost=60, entry="Foca::broadcast on the real backlog (no stubs)"), H("e4_message_gates_smt", engine="smt", group="gates", cost=80, entry="Message::{needs_piggyback, allow_custom_broadcasts, piggyback_only_active} (MIR -> SMT-LIB2, z3 + cvc5)", bounds="all 11 message kinds; 6 queries x 2 solvers"),
             H("bc_fill_prefix_1", tier=T, **BC), H("bc_fill_prefix_3", tier=T, cost=900, timeout_t=3000, **BC), H("c16_broadcast_empty", tier=T), H("d_broadcast_custom", tier=T),
             H("c07_send_pb_17", tier=T), H("c07_send_pb_22", tier=T, cost=130), H("c07_send_bcast_32", tier=T), H("c07_send_bare_10", tier=T),
         ],
